@@ -14,6 +14,9 @@
 
 
 // std
+#include <Eigen/LU>
+#include <Eigen/SVD>
+
 #include <vector>
 
 // romea
@@ -116,11 +119,11 @@ FindRigidTransformationBySVD<PointType>::estimate_(
   Eigen::Matrix<Scalar, -1, -1> u = svd.matrixU();
   Eigen::Matrix<Scalar, -1, -1> v = svd.matrixV();
 
-  //      if (u.determinant () * v.determinant () < 0)
-  //      {
-  //        for (int x = 0; x < d; ++x)
-  //          v (x, d) *= -1;
-  //      }
+  // Keep a proper rotation: when v * u^T is a reflection (coplanar or degenerate sets),
+  // flip the axis associated with the smallest singular value
+  if (u.determinant() * v.determinant() < 0) {
+    v.col(CARTESIAN_DIM - 1) *= -1;
+  }
 
   // Compute translation
   TransformationMatrixType H = TransformationMatrixType::Identity();
@@ -160,11 +163,11 @@ FindRigidTransformationBySVD<PointType>::estimate_(
   Eigen::Matrix<Scalar, -1, -1> u = svd.matrixU();
   Eigen::Matrix<Scalar, -1, -1> v = svd.matrixV();
 
-  //      if (u.determinant () * v.determinant () < 0)
-  //      {
-  //        for (int x = 0; x < d; ++x)
-  //          v (x, d) *= -1;
-  //      }
+  // Keep a proper rotation: when v * u^T is a reflection (coplanar or degenerate sets),
+  // flip the axis associated with the smallest singular value
+  if (u.determinant() * v.determinant() < 0) {
+    v.col(CARTESIAN_DIM - 1) *= -1;
+  }
 
   // Compute translation
   TransformationMatrixType H = TransformationMatrixType::Identity();
